@@ -83,3 +83,39 @@ def pts(a):
 
 def c(x):
     return Poly.const(x)
+
+
+# ------------------------------------------------------------------ loss objects are built outside the trace
+SUBSTITUTED_AFTER_CONSTRUCTION = ("loss_weights", "initial_condition", "norm_samples", "norm_int_length", "derivative_keys")
+
+
+def _standin(x):
+    if isinstance(x, (jax.Array, np.ndarray, jax.core.Tracer)) or hasattr(x, "shape") and hasattr(x, "dtype"):
+        dt = np.dtype(x.dtype)
+        if dt == np.bool_:
+            return np.zeros(np.shape(x), dtype=bool)
+        return np.full(np.shape(x), 7.0 if np.issubdtype(dt, np.floating) else 3, dtype=dt)
+    if isinstance(x, float):
+        return 7.0
+    return x
+
+
+def mk_loss(cls, **kw):
+    """Construct a jinns loss object the way users do — outside any trace, with concrete data — and then put the symbolic
+    weights / initial condition / normalisation data / derivative keys into the user-facing fields with eqx.tree_at (the
+    way users re-weight or re-configure an existing loss).  The values the terms use must be those the object carries:
+    copies made at construction (which eqx.tree_at does not refresh) are not the object's weights.  Construction runs
+    under jax.ensure_compile_time_eval so that nothing of it is staged into the traced function."""
+    conc = dict(kw)
+    later = {}
+    for k in SUBSTITUTED_AFTER_CONSTRUCTION:
+        if k in kw and kw[k] is not None:
+            later[k] = kw[k]
+            conc[k] = jax.tree_util.tree_map(_standin, kw[k])
+    if "params" in conc and conc["params"] is not None:            # InitVar: only used to build default derivative keys
+        conc["params"] = jax.tree_util.tree_map(_standin, conc["params"])
+    with jax.ensure_compile_time_eval():
+        loss = cls(**conc)
+    for k, v in later.items():
+        loss = eqx.tree_at(lambda l, k=k: getattr(l, k), loss, v, is_leaf=lambda x: x is None)
+    return loss
